@@ -1,11 +1,15 @@
 #!/bin/sh
-# tools/seedtest.sh <patch.diff> <ID> [tier]  - apply a seeded change to /repo, run the check, undo.
-P=$1; ID=$2; TIER=${3:-quick}
-cd /repo || exit 9
-git diff --quiet || { echo "/repo not clean"; exit 9; }
-git apply "$P" 2>/dev/null || git apply --3way "$P" || { echo "patch does not apply"; exit 8; }
-cd /verif && ./run.sh "$ID" "$TIER" > /tmp/seedtest_$ID.log 2>&1
+# tools/seedtest.sh <patch.diff> <ID> [tier]
+# Development tool: applies a seeded change to a scratch worktree of /repo's HEAD
+# (never to /repo), runs the check against it (VERIF_REPO / VERIF_OUT overrides),
+# removes the worktree.  Registered checks always run against /repo itself.
+P=$(realpath "$1"); ID=$2; TIER=${3:-quick}
+W=$(mktemp -d /tmp/seedwt.XXXXXX); rmdir "$W"
+git -C /repo worktree add -q --detach "$W" HEAD || exit 9
+cd "$W" && { git apply "$P" 2>/dev/null || git apply --3way "$P" 2>/dev/null; } || { echo "patch does not apply"; git -C /repo worktree remove --force "$W"; exit 8; }
+O=$(mktemp -d /tmp/seedout.XXXXXX)
+cd /verif && VERIF_REPO="$W" VERIF_OUT="$O" ./run.sh "$ID" "$TIER" > "$O/log" 2>&1
 rc=$?
-git -C /repo checkout -- . ; git -C /repo reset -q
-grep -E "VIOLATION|harness error|^\[$ID\] (quick|thorough)" /tmp/seedtest_$ID.log | head -8
-echo "exit=$rc"
+grep -E "VIOLATION|harness error| HERR |^\[$ID\] (quick|thorough)" "$O/log" | head -${SEEDTEST_LINES:-6}
+echo "exit=$rc log=$O/log"
+git -C /repo worktree remove --force "$W"
